@@ -766,6 +766,13 @@ def do_verify(options):
     if not repofiles:
         raise NoFiles('No files in repository')
     datfile = os.path.splitext(repofiles[0])[0] + '.dat'
+    # If the newest full backup file is missing, find_files() falls back to
+    # an older one; the .dat file of the missing one is still there.
+    for fname in os.listdir(options.repository):
+        if fname.endswith('.dat') and fname > os.path.basename(datfile):
+            raise VerificationFail(
+                "the full backup of %s is missing" % os.path.join(
+                    options.repository, fname))
     with open(datfile) as fp:
         for line in fp:
             fn, startpos, endpos, sum = line.split()
